@@ -42,7 +42,7 @@ FUNC_CTXS = [None, None, 'fp.FP32', 'fp.FP16', 'fp.IEEEContext(8, 32, fp.RM.RTP)
 
 XOPS1 = ['cbrt', 'ceil', 'floor', 'trunc', 'roundint']
 XFUNS = ['exp', 'log', 'sin', 'cos', 'atan', 'tanh', 'exp2', 'log2', 'expm1', 'log1p']
-XOPS2 = ['copysign', 'fmod', 'remainder', 'hypot']
+XOPS2 = ['copysign', 'fmod', 'remainder']
 XPREDS = ['isnan', 'isinf', 'isfinite', 'signbit']
 
 
@@ -80,10 +80,14 @@ class Gen:
             # the other operators the FPCore tables map one to one (backend/fpc.py and frontend/fpc.py).  Left out because the reference
             # evaluator deviates (measured on titanfp alone, DESIGN 6.2): nearbyint (ignores the rounding mode: 1.5 -> 1 under nearestEven),
             # fdim (NaN for equal infinities, C says +0), isnormal (FPCore: relative to the precision; FPy: of the unrounded argument),
+            # hypot (NaN for hypot(inf, NaN), C and IEEE 754 say +inf),
             # transcendental functions under a directed mode (expm1 / log1p one ulp off under toPositive); copysign's sign operand is
             # kept away from NaN (the sign of a NaN is not part of the value)
             nearest = scope[1] in ('nearestEven', 'nearestAway')
             x = r.choice(XOPS1 + XOPS2 + ['predsel', 'powi'] + (XFUNS if nearest else []))
+            if x in ('exp', 'exp2', 'expm1'):
+                # titanfp lets MPFR's overflow trap escape (gmpy2 SignedOverflow) instead of returning an infinity
+                return f'fp.{x}(min({a()}, 5))'
             if x in XOPS1 or x in XFUNS:
                 return f'fp.{x}({a()})'
             if x == 'copysign':
